@@ -150,6 +150,9 @@ func cmdWork(args []string) int {
 	out := fs.String("out", "", "output file")
 	fs.Parse(args)
 	start := time.Now()
+	if *out != "" {
+		progressFile = *out + ".progress"
+	}
 	o := newWorkerOut(*worker)
 	states := map[uint64]bool{}
 	if *prop == "C13" {
@@ -181,9 +184,17 @@ func cmdWork(args []string) int {
 	return 0
 }
 
+// progressFile is where a worker notes the run it is about to execute, so that
+// a hard crash of the process (Go fatal error, e.g. the GC finding an invalid
+// pointer handed out by ark) can be attributed to a run and replayed.
+var progressFile string
+
 // runOne executes run number `run` of a worker in the mode(s) of the property.
 func runOne(prop, tier string, seed uint64, worker, run int, o *WorkerOut, states map[uint64]bool) {
 	mode := sim.ModeFor(prop, run)
+	if progressFile != "" {
+		os.WriteFile(progressFile, []byte(fmt.Sprintf(`{"property":%q,"engine":"A","seed":%d,"run":%d,"worker":%d,"tier":%q,"mode":"regen","cfg":{"profile":%q}}`, prop, seed, run, worker, tier, mode)), 0o644)
+	}
 	res := sim.RunMode(prop, tier, seed, worker, run, mode)
 	o.absorb(prop, res, mode, states, tier)
 }
@@ -208,6 +219,9 @@ func cmdReplay(args []string) int {
 	}
 	if rp.Engine == "B" {
 		return replayPar(&rp, args[0])
+	}
+	if rp.Mode == "regen" {
+		return replayRegen(&rp, args[0])
 	}
 	viol := execMode(rp.Property, rp.Tier, rp.Mode, rp.Cfg, rp.Ops)
 	want := ""
@@ -369,8 +383,27 @@ func runWorkers(propv, tierv string, seedv uint64, engine string) int {
 	for i := 0; i < tc.workers; i++ {
 		r := <-ch
 		if r.err != nil {
+			// a hard crash of the worker process: attribute it to the run in progress
+			pb, perr := os.ReadFile(filepath.Join(tmp, fmt.Sprintf("w%d.json.progress", r.idx)))
+			var rp sim.Replay
+			if perr == nil && json.Unmarshal(pb, &rp) == nil && strings.Contains(r.out, "fatal error") {
+				what := "fatal error"
+				if i := strings.Index(r.out, "fatal error"); i >= 0 {
+					what = clipS(strings.SplitN(r.out[i:], "\n", 2)[0], 200)
+				}
+				rp.Viol = &sim.Violation{Prop: *prop, Oracle: "no_crash", Sig: *prop + "/no_crash/fatal", Fatal: true,
+					Msg: "the process crashed while executing a valid seeded history (" + what + "); typically the garbage collector found an invalid pointer handed out or kept by ark"}
+				total.Viol = append(total.Viol, rp)
+				total.ViolCount[rp.Viol.Sig]++
+				total.Extra["worker_crashes"]++
+				continue
+			}
 			crashed++
-			fmt.Fprintf(os.Stderr, "HARNESS-ERROR: worker %d failed: %v\n%s\n", r.idx, r.err, tail(r.out, 3000))
+			head := r.out
+			if len(head) > 1500 {
+				head = head[:1500]
+			}
+			fmt.Fprintf(os.Stderr, "HARNESS-ERROR: worker %d failed: %v (progress file: %v)\n%s\n...\n%s\n", r.idx, r.err, perr, head, tail(r.out, 1500))
 			continue
 		}
 		b, err := os.ReadFile(filepath.Join(tmp, fmt.Sprintf("w%d.json", r.idx)))
@@ -450,6 +483,8 @@ func conclude(prop, tier string, seed uint64, total *WorkerOut, states map[uint6
 	exit := 0
 	known := 0
 	unlisted := 0
+	notRepro := 0
+	reported := 0
 	var lines []string
 	os.MkdirAll(filepath.Join(verifDir, "replays"), 0o755)
 	for _, sig := range sigs {
@@ -467,6 +502,8 @@ func conclude(prop, tier string, seed uint64, total *WorkerOut, states map[uint6
 		// minimise
 		if rp.Engine == "B" {
 			minimisePar(rp, sig)
+		} else if rp.Mode == "regen" {
+			// a crash is replayed by regenerating the run from its seed
 		} else {
 			before := len(rp.Ops)
 			rp.Ops = sim.Minimise(rp.Ops, sig, 400, func(ops []sim.Op) []sim.Violation {
@@ -490,15 +527,34 @@ func conclude(prop, tier string, seed uint64, total *WorkerOut, states map[uint6
 			return 2
 		}
 		// verify the replay in a fresh process
-		cmd := exec.Command(os.Args[0], "replay", path)
-		outb, err := cmd.CombinedOutput()
-		if err == nil || !strings.Contains(string(outb), "VIOLATION property="+prop) {
-			fmt.Fprintf(os.Stderr, "HARNESS-ERROR: replay %s did not reproduce signature %s in a fresh process:\n%s\n", path, sig, tail(string(outb), 2000))
-			return 2
+		reproduced := false
+		var outb []byte
+		attempts := 1
+		if prop == "C12" || rp.Mode == "regen" {
+			attempts = 3 // decided by replication under uncontrolled runtime randomness (map order, GC timing)
 		}
+		for a := 0; a < attempts && !reproduced; a++ {
+			cmd := exec.Command(os.Args[0], "replay", path)
+			var err error
+			outb, err = cmd.CombinedOutput()
+			reproduced = err != nil && strings.Contains(string(outb), "VIOLATION property="+prop)
+		}
+		if !reproduced {
+			notRepro++
+			lines = append(lines, fmt.Sprintf("NOT-REPRODUCED: signature %s (replay %s) did not reproduce in a fresh process; not reported", sig, path))
+			fmt.Fprintf(os.Stderr, "replay output: %s\n", tail(string(outb), 1500))
+			unlisted--
+			continue
+		}
+		reported++
 		lines = append(lines, fmt.Sprintf("VIOLATION property=%s replay=%s", prop, path))
 		lines = append(lines, fmt.Sprintf("  signature=%s runs=%d op=%d: %s", sig, total.ViolCount[sig], rp.Viol.OpIdx, rp.Viol.Msg))
 		exit = 1
+	}
+	if notRepro > 0 && reported == 0 && (prop != "C12" || notRepro > 2) {
+		// violations were seen but none replays: a harness defect, never dressed up as a verdict
+		exit = 2
+		lines = append(lines, "HARNESS-ERROR: violations were observed but none reproduced on replay")
 	}
 	wall := time.Since(start).Seconds()
 	writeEvidence(prop, tier, seed, total, states, wall, engine, unlisted, known)
@@ -612,4 +668,31 @@ func execMode(prop, tier, mode string, cfg sim.Config, ops []sim.Op) []sim.Viola
 		return execTraceMode(prop, cfg, ops)
 	}
 	return sim.ExecMode(prop, tier, mode, cfg, ops)
+}
+
+// replayRegen re-generates a run from its seed in child processes (with an
+// aggressive GC setting) and reports whether the process crashes again.
+func replayRegen(rp *sim.Replay, path string) int {
+	if os.Getenv("ARKSIM_REGEN_CHILD") == "1" {
+		mode := rp.Cfg.Profile
+		res := sim.RunMode(rp.Property, rp.Tier, rp.Seed, rp.Worker, rp.Run, mode)
+		_ = res
+		return 0
+	}
+	for _, gogc := range []string{"1", "5", "off100"} {
+		cmd := exec.Command(os.Args[0], "replay", path)
+		cmd.Env = append(os.Environ(), "ARKSIM_REGEN_CHILD=1")
+		if gogc != "off100" {
+			cmd.Env = append(cmd.Env, "GOGC="+gogc)
+		}
+		out, err := cmd.CombinedOutput()
+		if err != nil && strings.Contains(string(out), "fatal error") {
+			i := strings.Index(string(out), "fatal error")
+			fmt.Printf("VIOLATION property=%s replay=%s\n", rp.Property, path)
+			fmt.Printf("  oracle=no_crash sig=%s\n  regenerated run (seed %d worker %d run %d) crashed the process: %s\n", rp.Viol.Sig, rp.Seed, rp.Worker, rp.Run, clipS(strings.SplitN(string(out)[i:], "\n", 2)[0], 200))
+			return 1
+		}
+	}
+	fmt.Printf("replay %s: the regenerated run did not crash the process again\n", path)
+	return 0
 }
